@@ -351,6 +351,74 @@ example :
     c.waiters = [⟨0, 1, WKind.adj⟩] ∧ 0 ∈ c.opened ∧ (1 : Int) ≤ M - c.cur + 1 ∧ c.effCap = 2 ∧
     (step c (.connClose 0)).map (·.effCap) = some 1 := by decide
 
+theorem reach_headBlocked {n₀ : Int} {c : Cap} (r : Reach n₀ c) : HeadBlocked c := by
+  induction r with
+  | init => exact headBlocked_new n₀
+  | step a _ hs ih => exact headBlocked_step ih hs
+
+/-- **parked_shrink_means_over_cap.** Once every spawned adjustment goroutine has run, a shrink can be
+parked only while more units are in use than the configured cap. Contrapositive (what the judges check
+on every settled snapshot, sig `setmax:parked-shrink-not-applied`): as soon as the connections fit
+into the new cap, the change **has been applied** — an adjustment that can never be applied (e.g. an
+`Acquire` of more than the semaphore's size, seeded/C17-m4) contradicts it. -/
+theorem parked_shrink_means_over_cap {n₀ : Int} (h0 : 0 ≤ n₀) {c : Cap} (r : Reach n₀ c)
+    (hp : c.pending = []) (hex : ∃ w ∈ c.waiters, w.kind = WKind.adj) :
+    c.realCap < ((c.inAccept.length + c.opened.length : Nat) : Int) :=
+  parked_means_over_cap (reach_inv h0 r) (reach_adjPos r) (reach_headBlocked r) hp hex
+
+/-- **realCap_le_max.** `realCapacity ≤ maxCapacity` in every reachable state, and whatever is asked for,
+`SetMaxCount` stores at most `maxCapacity` (translated clamp), so the weight of a later shrink never
+exceeds the size of the weighted semaphore. -/
+theorem realCap_le_max {n₀ : Int} (hM : n₀ ≤ M) {c : Cap} (r : Reach n₀ c) : c.realCap ≤ M := by
+  induction r with
+  | init => exact hM
+  | @step c1 c2 a _ hs ih =>
+    have notify_rc : ∀ (ws : List Waiter) (x : Cap), (notify x ws).realCap = x.realCap := by
+      intro ws
+      induction ws with
+      | nil => intro x; rfl
+      | cons w rr ihh => intro x; unfold notify; split; · rfl
+                         · rw [ihh]; unfold grant; split <;> rfl
+    have acq_rc : ∀ (x : Cap) (w : Waiter), (semAcquire x w).realCap = x.realCap := by
+      intro x w; unfold semAcquire; split
+      · unfold grant; split <;> rfl
+      · rfl
+    cases a <;> simp only [step] at hs
+    case acquire k => split at hs <;> cases hs; rw [acq_rc]; exact ih
+    case acceptDone k => split at hs <;> cases hs; exact ih
+    case connClose k =>
+      split at hs
+      · split at hs <;> cases hs; simp only [semRelease, notify_rc]; exact ih
+      · split at hs <;> cases hs; exact ih
+    case setMax n => split at hs <;> cases hs; rename_i hg; exact hg.2
+    case adjust k =>
+      cases ht : takeAdj k c1.pending with
+      | none => simp [ht] at hs
+      | some q =>
+        obtain ⟨d, rest⟩ := q
+        simp only [ht] at hs
+        split at hs
+        · split at hs <;> cases hs; simp only [semRelease, notify_rc]; exact ih
+        · split at hs <;> cases hs
+          · rw [acq_rc]; exact ih
+          · exact ih
+
+theorem setMaxCount_le_max (realCap n : Int) : (setMaxCount realCap n).1 ≤ M := by
+  simp only [setMaxCount]; split <;> omega
+
+/-- Non-vacuity / the scenario of seeded/C17-m4: cap 2 with three connections… `SetMaxCount(25000000)` is
+`SetMaxCount(M)`; the later shrink to 2 acquires `M − 2 ≤ size`, parks while 3 connections are open
+(over the cap, as the theorem says) and is applied by the next `Close`. -/
+example :
+    setMaxCount 2 25000000 = (M, [AdjOp.release (M - 2), AdjOp.done]) ∧
+    setMaxCount M 2 = (2, [AdjOp.acquire (M - 2), AdjOp.done]) ∧
+    (let c := run (newCap 2) [.setMax M, .adjust 0, .acquire 0, .acceptDone 0, .acquire 1, .acceptDone 1,
+                              .acquire 2, .acceptDone 2, .acquire 3, .setMax 2, .adjust 1]
+     c.pending = [] ∧ c.waiters.map (·.n) = [M - 2] ∧ c.realCap = 2 ∧ c.effCap = M ∧
+     c.inAccept.length + c.opened.length = 4 ∧
+     (run c [.connClose 0, .connClose 1]).effCap = 2 ∧ quiet (run c [.connClose 0, .connClose 1]) = true) := by
+  decide
+
 /-- the slip of seeded/C17-m3 in the model: a new `SetMaxCount` drops the shrinks parked in the queue -/
 private def supersede (c : Cap) : Cap := { c with waiters := c.waiters.filter (·.kind != WKind.adj) }
 
